@@ -110,12 +110,41 @@ static i128 umax(const Val &v) { return v.r.isFullSet() || v.r.isWrappedSet() ? 
 // ---- contracts --------------------------------------------------------------
 static bool applyContract(State &S, const CallBase *CB, const std::vector<Effect> &effs) {
   Val ret = CB->getType()->isIntegerTy() ? Val::top(CB->getType()->getIntegerBitWidth(), P_OTHER) : Val::unk();
+  // lengths held in memory (size_t *len arguments) are read before any effect is applied
+  std::map<int, i128> oldLen;
+  for (auto &e : effs) if (e.lenptr >= 0 && !oldLen.count(e.lenptr)) {
+    Val lp = getVal(S, CB->getArgOperand(e.lenptr));
+    Val lv = doLoad(S, lp, Type::getInt64Ty(M->getContext()), CB);
+    tighten(S, lv);
+    oldLen[e.lenptr] = lv.k == Val::INT ? umax(lv) : ((i128)1 << 62);
+  }
   for (auto &e : effs) {
+    if (e.op == "retptr") {
+      Val p = getVal(S, CB->getArgOperand(e.ptr));
+      if (p.k != Val::PTR) { ret = Val::unk(); continue; }
+      i128 hi = e.rethi;
+      if (e.hiarg >= 0) { Val h = getVal(S, CB->getArgOperand(e.hiarg)); tighten(S, h); hi = h.k == Val::INT ? std::min(umax(h), (i128)1 << 40) : ((i128)1 << 40); }
+      p.r = p.r.add(ConstantRange::getNonEmpty(APInt(64, (uint64_t)e.retlo, true), APInt(64, (uint64_t)hi, true) + 1));
+      if (p.root >= 0 && e.retlo == hi) p.rk += e.retlo; else p.root = -1;
+      p.kb = KnownBits(64); p.hascs = false; p.maybenull = e.mayNull;
+      ret = p; continue;
+    }
+    if (e.op == "storeint") {
+      Val p = getVal(S, CB->getArgOperand(e.ptr));
+      unsigned w = (unsigned)e.size * 8;
+      i128 hi = e.lenptr >= 0 ? oldLen[e.lenptr] : (i128)e.rethi;
+      i128 cap = w >= 64 ? (((i128)1 << 63) - 1) : (((i128)1 << w) - 1);
+      if (hi > cap) hi = cap;
+      Val v = Val::range(w, ConstantRange::getNonEmpty(APInt(w, (uint64_t)e.retlo), APInt(w, (uint64_t)hi) + 1), provByName(e.prov));
+      doStore(S, p, v, (unsigned)e.size, CB);
+      continue;
+    }
     if (e.op == "ret") { ret = Val::range(CB->getType()->getIntegerBitWidth(), ConstantRange::getNonEmpty(APInt(CB->getType()->getIntegerBitWidth(), (uint64_t)e.retlo, true), APInt(CB->getType()->getIntegerBitWidth(), (uint64_t)e.rethi, true) + 1)); continue; }
     Val p = getVal(S, CB->getArgOperand(e.ptr));
     if (e.off != 0 && p.k == Val::PTR) { p.r = p.r.add(ConstantRange(APInt(64, (uint64_t)e.off, true))); if (p.root >= 0) p.rk += e.off; p.kb = KnownBits(64); p.hascs = false; }
     i128 nlo, nhi; int lr = -1; i128 lk = 0;
     if (e.len >= 0) { Val n = getVal(S, CB->getArgOperand(e.len)); tighten(S, n); nlo = umin(n); nhi = umax(n); lr = n.root; lk = n.rk; }
+    else if (e.lenptr >= 0) { nlo = 0; nhi = oldLen[e.lenptr]; if (e.maxlen >= 0 && nhi > e.maxlen) alarm(S, "CALL", CB, "contract precondition: *len may be " + i128s(nhi) + ", the contract was verified up to " + std::to_string(e.maxlen)); }
     else if (e.size >= 0) nlo = nhi = e.size;
     else {  // size of pointee type
       Type *pt = CB->getArgOperand(e.ptr)->getType()->getPointerElementType();
